@@ -283,4 +283,105 @@ theorem mono_of_wide_nonstrict (t : List Int) (w : Int) (sOf : Nat → Int) (L :
   apply b
   linarith
 
+/-! ### the window edge derived from the grid and the range (not strict), for every non-decreasing grid -/
+
+/-- the largest l in 1..n with P l, 0 if there is none -/
+def findL (P : Nat → Bool) : Nat → Nat
+  | 0 => 0
+  | l + 1 => if P (l + 1) then l + 1 else findL P l
+
+theorem findL_le (P : Nat → Bool) (n : Nat) : findL P n ≤ n := by
+  induction n with
+  | zero => simp [findL]
+  | succ n ih => unfold findL; split <;> omega
+
+theorem findL_spec (P : Nat → Bool) (n : Nat) (hanti : ∀ l l', 1 ≤ l → l ≤ l' → l' ≤ n → P l' = true → P l = true) (l : Nat)
+    (hl : 1 ≤ l) (hln : l ≤ n) : (l ≤ findL P n) ↔ P l = true := by
+  induction n with
+  | zero => omega
+  | succ n ih =>
+    unfold findL
+    by_cases hp : P (n + 1) = true
+    · simp only [hp, if_true]
+      constructor
+      · intro _; exact hanti l (n + 1) hl hln (le_refl _) hp
+      · intro _; exact hln
+    · have hp' : P (n + 1) = false := by simpa using hp
+      simp only [hp', Bool.false_eq_true, if_false]
+      by_cases he : l = n + 1
+      · subst he
+        have := findL_le P n
+        constructor
+        · intro h; omega
+        · intro h; exact absurd h hp
+      · exact ih (fun a b h1 h2 h3 h4 => hanti a b h1 h2 (by omega) h4) (by omega)
+
+/-- bucket width of point r: the distance to the next point, the finest LOD step for the last one -/
+def sOfGrid (t : List Int) (lodStep : Int) (r : Nat) : Int :=
+  if r + 1 < t.length then tAt t (r + 1) - tAt t r else lodStep
+
+/-- **the window edge in closed (computable) form**: the largest l ≥ 1 with w ≤ t_r − t_l + (bucket width of r) -/
+def Lgrid (t : List Int) (w lodStep : Int) (r : Nat) : Nat :=
+  findL (fun l => decide (w ≤ tAt t r - tAt t l + sOfGrid t lodStep r)) r
+
+theorem tAt_mono (t : List Int) (hmono : ∀ i, i + 1 < t.length → tAt t i ≤ tAt t (i + 1)) :
+    ∀ a b, a ≤ b → b < t.length → tAt t a ≤ tAt t b := by
+  intro a b hab hb
+  induction b with
+  | zero => have : a = 0 := by omega
+            subst this; exact le_refl _
+  | succ b ih =>
+    by_cases he : a = b + 1
+    · subst he; exact le_refl _
+    · exact le_trans (ih (by omega) (by omega)) (hmono b hb)
+
+theorem grid_wide (t : List Int) (w lodStep : Int) (hmono : ∀ i, i + 1 < t.length → tAt t i ≤ tAt t (i + 1))
+    (r l : Nat) (hl : 1 ≤ l) (hlr : l ≤ r) (hr : r < t.length) :
+    wideAt t w false (sOfGrid t lodStep r) r l = decide (l ≤ Lgrid t w lodStep r) := by
+  have hspec := findL_spec (fun l => decide (w ≤ tAt t r - tAt t l + sOfGrid t lodStep r)) r
+    (by
+      intro a b _ hab hbr hb
+      simp only [decide_eq_true_eq] at hb ⊢
+      have := tAt_mono t hmono a b hab (by omega)
+      linarith) l hl hlr
+  rw [Bool.eq_iff_iff]
+  simp only [wideAt, Bool.false_and, Bool.or_false, decide_eq_true_eq]
+  unfold Lgrid
+  rw [hspec]
+  simp only [decide_eq_true_eq]
+
+theorem grid_step (t : List Int) (lodStep : Int) (r : Nat) (h1 : 1 ≤ r) (hr : r < t.length) :
+    tAt t r - tAt t (r - 1) = sOfGrid t lodStep (r - 1) := by
+  unfold sOfGrid
+  have : r - 1 + 1 < t.length := by omega
+  simp only [this, if_true]
+  have e : r - 1 + 1 = r := by omega
+  rw [e]
+
+theorem grid_width_nonneg (t : List Int) (lodStep : Int) (hlod : 0 ≤ lodStep)
+    (hmono : ∀ i, i + 1 < t.length → tAt t i ≤ tAt t (i + 1)) (r : Nat) : 0 ≤ sOfGrid t lodStep r := by
+  unfold sOfGrid
+  split
+  · rename_i h; have := hmono r h; linarith
+  · exact hlod
+
+/-- every non-decreasing grid (in particular a coarse LOD followed by a finer one) with a positive range satisfies the
+    hypotheses of the general cursor theorem for the functions that are not strict, with L = Lgrid: no per-grid check -/
+def gridCtx (t : List Int) (w lodStep : Int) (hw : 0 < w) (hlod : 0 ≤ lodStep)
+    (hmono : ∀ i, i + 1 < t.length → tAt t i ≤ tAt t (i + 1)) : GCtx where
+  t := t
+  w := w
+  strict := false
+  sOf := sOfGrid t lodStep
+  L := Lgrid t w lodStep
+  hw := hw
+  hL := fun r => findL_le _ r
+  hwide := fun r l hl hlr hr => grid_wide t w lodStep hmono r l hl hlr hr
+  hmono := mono_of_wide_nonstrict t w (sOfGrid t lodStep) (Lgrid t w lodStep) (fun r => findL_le _ r)
+    (fun r l hl hlr hr => grid_wide t w lodStep hmono r l hl hlr hr)
+    (fun r h1 hr => grid_step t lodStep r h1 hr)
+    (fun r _ => grid_width_nonneg t lodStep hlod hmono r)
+  hstep := fun r h1 hr => grid_step t lodStep r h1 hr
+  hnarrow := by intro r _; rfl
+
 end SH.PromWindowG
